@@ -175,10 +175,19 @@ def get_single_mode_cubic_phase_operator(
     """
 
     np = connector.np
+    fallback_np = connector.fallback_np
 
-    annih = np.diag(np.sqrt(np.arange(1, cutoff)), 1)
-    position = (annih.T + annih) * np.sqrt(hbar / 2)
-    return connector.expm(1j * connector.powm(position, 3) * (gamma / (3 * hbar)))
+    # NOTE: The matrix of x^3 does not depend on `gamma`, so it is diagonalized once.
+    # This way the operator is an explicit, everywhere differentiable function of
+    # `gamma` (a generic matrix exponential is not at the degenerate point `gamma=0`).
+    annih = fallback_np.diag(fallback_np.sqrt(fallback_np.arange(1, cutoff)), 1)
+    position = (annih.T + annih) * fallback_np.sqrt(hbar / 2)
+    eigenvalues, eigenvectors = fallback_np.linalg.eigh(
+        fallback_np.linalg.matrix_power(position, 3)
+    )
+    phases = np.exp(1j * eigenvalues * (gamma / (3 * hbar)))
+
+    return (eigenvectors * phases) @ eigenvectors.conj().T
 
 
 def operator_basis(space):
